@@ -76,6 +76,10 @@ def is_inf(x):
     return isinstance(x, float) and math.isinf(x)
 
 
+def sum_over(n, fn):
+    return sum(fn(i) for i in range(n))
+
+
 def is_nan(x):
     return isinstance(x, float) and math.isnan(x)
 
@@ -275,6 +279,10 @@ def upred(name, *args):
 
 def uint(name, *args):
     return int(ufn(name, *args))
+
+
+def ureal(name, *args):
+    return ufn(name, *args)
 
 
 def bind_ufn(name, fn):
